@@ -55,6 +55,8 @@ struct Shape {
     int rfn;           // sample refinement
     int stride = 1;    // sample every stride-th lattice cell per axis (large-coordinate families)
     std::string gen;   // non-empty: replayable generator id ("aq:<n>:<variant>") used instead of the point list
+    IPoly hole;        // key-holed / cavity members: the enclosed hole (same units as pts), for the 'hole kept whole' counter
+    int sub = 1;       // pts are in 1/sub of a PRECISION-GRID step (thin-slit cavities); 1: pts are lattice units
 };
 static std::string pts_str(const IPoly& p);
 // replay token of a shape: generator id if it has one, else the point list
@@ -176,6 +178,184 @@ static IPoly zigzag(int phase) {  // wavy band of vertical thickness 1, height 2
     return p;
 }
 
+
+// --- key-holed polygons: an outer contour with at least one slanted edge on the left side (trapezoid, reversed
+// trapezoid, parallelogram, pentagon), notches on the top right that push the vertex count above the limits while
+// the quantile cuts stay right of the hole, an enclosed hole (square, triangle, slanted quadrilateral) and a
+// zero-width slit (two coincident antiparallel edges, so two vertices are repeated) from the hole to the left /
+// right / top / bottom side.  Region = outer minus hole.  Any piece or slice interval that keeps the hole whole
+// makes slice() re-link the hole to the contour (link_holes in clipper_tools.cpp).
+static bool lattice_points_on(IP a, IP b, std::vector<IP>& out) {
+    int64_t dx = b.x - a.x, dy = b.y - a.y, g = std::__gcd(std::llabs(dx), std::llabs(dy));
+    if (g == 0) return false;
+    for (int64_t k = 0; k <= g; k++) out.push_back({a.x + dx / g * k, a.y + dy / g * k});
+    return true;
+}
+static bool keyhole(int outer_kind, int hole_kind, int side, int t, IPoly& poly, IPoly& hole) {
+    IP BL, TL, mid = {0, 0};
+    bool has_mid = false;
+    int rdx = 0;
+    switch (outer_kind) {
+        case 0: BL = {0, 0}; TL = {5, 10}; break;
+        case 1: BL = {5, 0}; TL = {0, 10}; break;
+        case 2: BL = {0, 0}; TL = {5, 10}; rdx = 5; break;
+        default: BL = {3, 0}; TL = {3, 10}; mid = {0, 5}; has_mid = true;
+    }
+    const int64_t W = 13 + 4 * t + 1;
+    IPoly outer = {BL, {W, 0}, {W + rdx, 10}};
+    for (int k = 0; k < t; k++) {
+        int64_t xr = W + rdx - 2 - 4 * k;
+        outer.push_back({xr, 10}); outer.push_back({xr, 8}); outer.push_back({xr - 2, 8}); outer.push_back({xr - 2, 10});
+    }
+    size_t i_top = outer.size() - 1;  // last notch corner on the top line; the top edge runs from it to TL
+    outer.push_back(TL);
+    if (has_mid) outer.push_back(mid);
+    switch (hole_kind) {
+        case 0: hole = {{6, 3}, {6, 6}, {9, 6}, {9, 3}}; break;
+        case 1: hole = {{6, 3}, {7, 6}, {9, 3}}; break;
+        default: hole = {{6, 4}, {7, 6}, {9, 5}, {8, 3}};
+    }
+    // candidate attachment points on the requested side
+    size_t n = outer.size();
+    std::vector<size_t> edges;  // index i of edge outer[i] -> outer[i+1]
+    if (side == 0) for (size_t i = i_top + 1; i < n; i++) edges.push_back(i);       // left: TL (-> mid) -> BL
+    else if (side == 1) edges.push_back(1);                                         // right
+    else if (side == 2) edges.push_back(i_top);                                     // top (left of the notches)
+    else edges.push_back(0);                                                        // bottom
+    int64_t best = -1;
+    IP A = {0, 0};
+    size_t eA = 0, iB = 0;
+    for (size_t e : edges) {
+        std::vector<IP> cand;
+        lattice_points_on(outer[e], outer[(e + 1) % n], cand);
+        for (IP a : cand)
+            for (size_t b = 0; b < hole.size(); b++) {
+                IP B = hole[b];
+                bool ok = true;
+                for (size_t i = 0; i < n && ok; i++) {
+                    IP u = outer[i], v = outer[(i + 1) % n];
+                    if (eg::on_segment(u, v, a)) continue;
+                    if (eg::segments_touch(a, B, u, v)) ok = false;
+                }
+                for (size_t i = 0; i < hole.size() && ok; i++) {
+                    IP u = hole[i], v = hole[(i + 1) % hole.size()];
+                    if (u == B || v == B) { if (eg::cross(a, B, u == B ? v : u) == 0 && eg::dot(B, a, u == B ? v : u) < 0) ok = false; continue; }
+                    if (eg::segments_touch(a, B, u, v)) ok = false;
+                }
+                // the slit must not enter the hole at B: a must not lie in the hole's interior angle at B (convex holes: a outside the hole)
+                if (ok && eg::winding(hole, {a.x, a.y}) != 0) ok = false;
+                if (!ok) continue;
+                int64_t d = (a.x - B.x) * (a.x - B.x) + (a.y - B.y) * (a.y - B.y);
+                if (best < 0 || d < best) { best = d; A = a; eA = e; iB = b; }
+            }
+    }
+    if (best < 0) return false;
+    // outer cycle starting at A (inserted as a collinear vertex if it is not a corner)
+    IPoly cyc;
+    for (size_t i = 0; i < n; i++) {
+        cyc.push_back(outer[i]);
+        if (i == eA && !(outer[i] == A) && !(outer[(i + 1) % n] == A)) cyc.push_back(A);
+    }
+    size_t sA = 0;
+    for (size_t i = 0; i < cyc.size(); i++) if (cyc[i] == A) sA = i;
+    poly.clear();
+    for (size_t i = 0; i < cyc.size(); i++) poly.push_back(cyc[(sA + i) % cyc.size()]);
+    poly.push_back(A);
+    for (size_t i = 0; i <= hole.size(); i++) poly.push_back(hole[(iB + i) % hole.size()]);
+    // closing edge B -> A
+    return eg::area2(poly) == eg::area2(outer) + eg::area2(hole) && eg::area2(hole) < 0 && eg::area2(poly) > 0;
+}
+static void build_keyholes(std::vector<Shape>& out, bool thorough, const std::vector<int>& variants) {
+    static const char* on[] = {"trapezoid", "reversed-trapezoid", "parallelogram", "pentagon"};
+    static const char* hn[] = {"square", "triangle", "slanted"};
+    static const char* sn[] = {"left", "right", "top", "bottom"};
+    for (int t : thorough ? std::vector<int>{3, 5, 7} : std::vector<int>{5})
+        for (int o = 0; o < 4; o++) {
+            if (!thorough && (o == 1 || o == 2)) continue;
+            for (int h = 0; h < 3; h++)
+                for (int sd = 0; sd < 4; sd++) {
+                    IPoly p, hole;
+                    if (!keyhole(o, h, sd, t, p, hole)) { R->internal_error(fmt("keyhole(%s,%s,%s,t=%d) could not be built", on[o], hn[h], sn[sd], t)); continue; }
+                    for (int v : variants) {
+                        Shape sh;
+                        sh.pts = transform(p, v);
+                        sh.hole = transform(hole, v);
+                        sh.kind = fmt("keyhole(outer=%s,hole=%s,slit=%s,t=%d)/v%d", on[o], hn[h], sn[sd], t, v);
+                        sh.rfn = 1;
+                        out.push_back(sh);
+                    }
+                }
+        }
+}
+// does one piece keep the (placed) hole whole: all hole vertices are vertices of the piece and its box encloses the hole's
+static bool keeps_hole(const Shape& sh, int64_t U, IP off, const std::vector<IPoly>& pieces) {
+    if (sh.hole.empty()) return false;
+    for (auto& p : pieces) {
+        std::set<IP> vs(p.begin(), p.end());
+        bool all = true;
+        int64_t hx0 = INT64_MAX, hx1 = INT64_MIN, hy0 = INT64_MAX, hy1 = INT64_MIN;
+        for (auto& q : sh.hole) {
+            IP g = {(q.x + off.x * sh.sub) * U, (q.y + off.y * sh.sub) * U};
+            if (g.x % sh.sub || g.y % sh.sub) { all = false; break; }
+            g.x /= sh.sub; g.y /= sh.sub;
+            if (!vs.count(g)) { all = false; break; }
+            hx0 = std::min(hx0, g.x); hx1 = std::max(hx1, g.x); hy0 = std::min(hy0, g.y); hy1 = std::max(hy1, g.y);
+        }
+        if (!all) continue;
+        int64_t x0 = INT64_MAX, x1 = INT64_MIN, y0 = INT64_MAX, y1 = INT64_MIN;
+        for (auto& q : p) { x0 = std::min(x0, q.x); x1 = std::max(x1, q.x); y0 = std::min(y0, q.y); y1 = std::max(y1, q.y); }
+        if (x0 < hx0 && x1 > hx1 && y0 < hy0 && y1 > hy1) return true;
+    }
+    return false;
+}
+
+// --- thin-slit cavities: genuinely simple polygons (no repeated vertex) with a square cavity reached through a
+// slit NARROWER than the precision grid (1/3 or 2/3 of a grid step), slanted left side, notches on the top right.
+// Rounding to the grid closes the slit, so the piece that contains the cavity has an enclosed hole.  Coordinates
+// are in 1/3 grid steps (Shape::sub = 3); one design unit = 100 grid steps; every vertex except the slit's is on
+// the grid, so nothing but the slit may move.
+static bool thin_slit(int slit_kind, int left_kind, IPoly& poly, IPoly& hole) {
+    const int64_t K = 300;  // pts units per design unit
+    auto P = [&](int64_t x, int64_t y, int64_t dx = 0, int64_t dy = 0) { return IP{x * K + dx, y * K + dy}; };
+    IPoly notch = {P(30, 10), P(28, 10), P(28, 8), P(26, 8), P(26, 10), P(24, 10), P(24, 8), P(22, 8), P(22, 10), P(20, 10), P(20, 8), P(18, 8), P(18, 10), P(16, 10), P(16, 8), P(14, 8), P(14, 10)};
+    IP BL = left_kind == 0 ? P(0, 0) : P(4, 0), TL = left_kind == 0 ? P(4, 10) : P(0, 10);
+    poly.clear();
+    hole = {P(8, 4), P(8, 6), P(10, 6), P(10, 4)};
+    if (slit_kind == 0 || slit_kind == 1) {  // slit to the right side: lower wall on the grid (0) or both walls off the grid (1)
+        int64_t lo = slit_kind == 0 ? 0 : -1;
+        poly = {BL, P(30, 0), P(30, 5, 0, lo), P(10, 5, 0, lo), P(10, 4), P(8, 4), P(8, 6), P(10, 6), P(10, 5, 0, 1), P(30, 5, 0, 1)};
+        for (auto& q : notch) poly.push_back(q);
+        poly.push_back(TL);
+    } else if (slit_kind == 2) {  // slit to the top
+        poly = {BL, P(30, 0)};
+        for (auto& q : notch) poly.push_back(q);
+        for (IP q : {P(9, 10, 1, 0), P(9, 6, 1, 0), P(10, 6), P(10, 4), P(8, 4), P(8, 6), P(9, 6), P(9, 10)}) poly.push_back(q);
+        poly.push_back(TL);
+    } else {  // slit to the bottom
+        poly = {BL, P(9, 0), P(9, 4), P(8, 4), P(8, 6), P(10, 6), P(10, 4), P(9, 4, 1, 0), P(9, 0, 1, 0), P(30, 0)};
+        for (auto& q : notch) poly.push_back(q);
+        poly.push_back(TL);
+    }
+    return eg::is_simple(poly, true) && eg::area2(poly) > 0;
+}
+static void build_thin_slits(std::vector<Shape>& out, const std::vector<int>& variants) {
+    static const char* sn[] = {"right", "right-offgrid", "top", "bottom"};
+    for (int sk = 0; sk < 4; sk++)
+        for (int lk = 0; lk < 2; lk++) {
+            IPoly p, hole;
+            if (!thin_slit(sk, lk, p, hole)) { R->internal_error(fmt("thin_slit(%s,left=%d) is not a simple polygon", sn[sk], lk)); continue; }
+            for (int v : variants) {
+                Shape sh;
+                sh.pts = transform(p, v);
+                sh.hole = transform(hole, v);
+                sh.kind = fmt("thinslit(slit=%s,left=%s)/v%d", sn[sk], lk ? "reversed" : "slanted", v);
+                sh.rfn = 1;
+                sh.sub = 3;
+                sh.stride = 50;
+                out.push_back(sh);
+            }
+        }
+}
 static void add_family(std::vector<Shape>& out, const IPoly& base, const std::string& kind, const std::vector<int>& variants) {
     if (!eg::is_simple(base, true)) { R->internal_error("family member is not simple: " + kind + " " + pts_str(base)); return; }
     for (int v : variants) {
@@ -351,6 +531,7 @@ static void build_antiqsort(std::vector<Shape>& out, int nlo, int nhi, int step,
         }
 }
 static Shape shape_from_tok(const std::string& tok, int rfn) {
+    int den = atoi(R->rarg("den").c_str()), stride = atoi(R->rarg("stride").c_str());
     if (tok.compare(0, 3, "aq:") == 0) {
         int n = 0, variant = 0;
         sscanf(tok.c_str(), "aq:%d:%d", &n, &variant);
@@ -364,6 +545,8 @@ static Shape shape_from_tok(const std::string& tok, int rfn) {
     sh.pts = parse_pts(tok);
     sh.kind = "replay";
     sh.rfn = rfn;
+    if (den > 1) sh.sub = den;
+    if (stride > 1) sh.stride = stride;
     return sh;
 }
 // lattice shapes + one repeated-vertex version per listed position
@@ -411,12 +594,16 @@ static void lattice_bbox(const IPoly& p, int64_t& x0, int64_t& y0, int64_t& x1, 
 struct Samp { IP q; int expect; };
 // sample points around the placed copies of `lat` (lattice polygon, offsets in lattice units); points within
 // the guard band of an original edge are dropped (counted in *guarded).  expect = number of copies covering.
-static void make_samples(const IPoly& lat, const std::vector<IP>& offsets, int64_t U, int rfn, std::vector<Samp>& out, int64_t* guarded, int stride = 1) {
+static int64_t fdiv(int64_t a, int64_t b) { return a >= 0 ? a / b : -((-a + b - 1) / b); }
+static int64_t cdiv(int64_t a, int64_t b) { return -fdiv(-a, b); }
+// lat is in 1/sub lattice units (sub must divide 21*rfn); offsets are in lattice units
+static void make_samples(const IPoly& lat, const std::vector<IP>& offsets, int64_t U, int rfn, std::vector<Samp>& out, int64_t* guarded, int stride = 1, int sub = 1) {
     const int64_t S = 21 * rfn, G = 3 * S;
     int64_t x0, y0, x1, y1;
     lattice_bbox(lat, x0, y0, x1, y1);
+    x0 = fdiv(x0, sub); y0 = fdiv(y0, sub); x1 = cdiv(x1, sub); y1 = cdiv(y1, sub);
     for (auto& off : offsets) {
-        IPoly o = lift(lat, U * S, off);
+        IPoly o = lift(lat, U * S / sub, {off.x * sub, off.y * sub});
         for (int64_t i = rfn * (x0 + off.x - 1); i < rfn * (x1 + off.x + 1); i += stride)
             for (int64_t j = rfn * (y0 + off.y - 1); j < rfn * (y1 + off.y + 1); j += stride) {
                 IP q = {(21 * i + 7) * U, (21 * j + 3) * U};
@@ -470,9 +657,9 @@ static bool pieces_to_grid(const Array<Polygon*>& arr, double mult, std::vector<
     }
     return true;
 }
-static int64_t count_new_vertices(const IPoly& lat, int64_t U, const std::vector<IPoly>& pieces) {
+static int64_t count_new_vertices(const IPoly& lat, int64_t U, const std::vector<IPoly>& pieces, int sub = 1) {
     std::set<IP> orig;
-    for (auto& q : lat) orig.insert({q.x * U, q.y * U});
+    for (auto& q : lat) if ((q.x * U) % sub == 0 && (q.y * U) % sub == 0) orig.insert({q.x * U / sub, q.y * U / sub});
     int64_t n = 0;
     for (auto& p : pieces) for (auto& q : p) if (!orig.count(q)) n++;
     return n;
@@ -522,13 +709,15 @@ static const uint64_t LIMITS_BELOW_FIVE[] = {0, 1, 2, 3, 4};
 
 static void fracture_case(const Shape& sh, uint64_t mp, int pi, int repkind, bool verbose) {
     const Prec& pr = PRECS[pi];
-    const int64_t U = pr.U, S = 21 * sh.rfn;
+    // U = oracle grid points per lattice unit.  Thin-slit members (sh.sub > 1) are defined relative to the precision
+    // grid: lattice unit = one grid step, pts in 1/sub steps, coordinates handed to gdstk = pts * precision / sub.
+    const int64_t U = sh.sub > 1 ? 1 : pr.U, S = 21 * sh.rfn, SUB = sh.sub;
     const std::string sub = "fracture";
-    std::string replay = "sub=fracture pts=" + shape_tok(sh) + fmt(" mp=%llu prec=%d rep=%d rfn=%d", (unsigned long long)mp, pi, repkind, sh.rfn);
+    std::string replay = "sub=fracture pts=" + shape_tok(sh) + fmt(" mp=%llu prec=%d rep=%d rfn=%d den=%d stride=%d", (unsigned long long)mp, pi, repkind, sh.rfn, sh.sub, sh.stride);
     JFields tags = {{"kind", jstr(sh.kind.substr(0, sh.kind.find('(')))}, {"n", jint((int64_t)sh.pts.size())}, {"max_points", juint(mp)}, {"precision", jstr(pr.name)}, {"repetition", jint(repkind)}};
     Polygon poly = {};
     poly.tag = make_tag(3, 7);
-    set_points(poly, sh.pts);
+    set_points(poly, sh.pts, {0, 0}, sh.sub > 1 ? pr.precision / sh.sub : 1.0);
     set_repetition(poly.repetition, repkind);
     set_two_properties(poly.properties);
     const std::string before = dump::polygon(poly);
@@ -547,12 +736,18 @@ static void fracture_case(const Shape& sh, uint64_t mp, int pi, int repkind, boo
     if (mp < 5) {
         // "a limit below five leaves the polygon alone": nothing is produced, the original stays as it is
         R->count("fracture_limit_below_five");
-        if (result.count != 0) { pieces_to_grid(result, U, pieces, err); viol("limit_below_five_produced_pieces", fmt("max_points=%llu: %llu piece(s) appended", (unsigned long long)mp, (unsigned long long)result.count)); }
+        if (result.count != 0) { pieces_to_grid(result, (double)pr.U, pieces, err); viol("limit_below_five_produced_pieces", fmt("max_points=%llu: %llu piece(s) appended", (unsigned long long)mp, (unsigned long long)result.count)); }
         free_polys(result);
         poly.clear();
         return;
     }
-    if (!pieces_to_grid(result, U, pieces, err)) {
+    if (!pieces_to_grid(result, (double)pr.U, pieces, err)) {
+        if (sh.sub > 1 && result.count == 1 && result[0]->point_array.count == sh.pts.size()) {  // untouched copy of a member with off-grid (slit) vertices
+            R->count("fracture_cases_untouched_offgrid_member");
+            free_polys(result);
+            poly.clear();
+            return;
+        }
         R->internal_error("fracture output off the precision grid (oracle cannot represent it): " + err + " replay: " + replay);
         free_polys(result);
         poly.clear();
@@ -565,7 +760,7 @@ static void fracture_case(const Shape& sh, uint64_t mp, int pi, int repkind, boo
     // 2. region: cover count at every sample point outside the guard band
     std::vector<Samp> samples;
     int64_t guarded = 0;
-    make_samples(sh.pts, {{0, 0}}, U, sh.rfn, samples, &guarded, sh.stride);
+    make_samples(sh.pts, {{0, 0}}, U, sh.rfn, samples, &guarded, sh.stride, sh.sub);
     std::vector<IPoly> fine;
     for (auto& p : pieces) fine.push_back(lift(p, S));
     PartVerdict v = check_partition(samples, fine, U, sh.rfn, true);
@@ -576,15 +771,17 @@ static void fracture_case(const Shape& sh, uint64_t mp, int pi, int repkind, boo
     else if (v.overlap) viol("pieces_overlap", v.first + fmt(" (%d overlapping of %lld samples)", v.overlap, (long long)v.checked));
     // 3. area identity with the rounding slack (#new vertices + #pieces) * extent * precision
     {
+        // everything scaled by SUB^2 so that members given in 1/SUB grid steps stay integral
         i128 a_orig = abs128(eg::area2(sh.pts)) * U * U, a_sum = 0;
         for (auto& p : pieces) a_sum += abs128(eg::area2(p));
+        a_sum *= SUB * SUB;
         int64_t x0, y0, x1, y1;
         lattice_bbox(sh.pts, x0, y0, x1, y1);
-        int64_t newv = count_new_vertices(sh.pts, U, pieces);
-        i128 slack2 = (i128)2 * (newv + (pieces.size() > 1 ? (int64_t)pieces.size() : 0)) * ((x1 - x0) + (y1 - y0)) * U;
+        int64_t newv = count_new_vertices(sh.pts, U, pieces, sh.sub);
+        i128 slack2 = (i128)2 * (newv + (pieces.size() > 1 ? (int64_t)pieces.size() : 0)) * ((x1 - x0) + (y1 - y0)) * U * SUB;
+        const double an = 2.0 * U * U * SUB * SUB;
         if (abs128(a_sum - a_orig) > slack2)
-            viol("area_changed", fmt("sum of piece areas %.9g != original area %.9g (slack %.3g, %lld new vertices)", (double)a_sum / (2.0 * U * U), (double)a_orig / (2.0 * U * U),
-                                     (double)slack2 / (2.0 * U * U), (long long)newv));
+            viol("area_changed", fmt("sum of piece areas %.9g != original area %.9g (slack %.3g, %lld new vertices)", (double)a_sum / an, (double)a_orig / an, (double)slack2 / an, (long long)newv));
         if (newv) R->count("fracture_with_rounded_or_new_vertices");
     }
     // 4. tag, repetition, properties on every piece: deep-equal, storage not shared
@@ -608,6 +805,7 @@ static void fracture_case(const Shape& sh, uint64_t mp, int pi, int repkind, boo
     }
     // bookkeeping
     bool nontrivial = pieces.size() > 2;
+    if (pieces.size() > 1 && keeps_hole(sh, U, {0, 0}, pieces)) R->count("fracture_cases_piece_keeps_hole_whole");
     if (nontrivial) { R->count("nontrivial"); R->count("nontrivial_fracture"); }
     if (pieces.size() > 1) R->count("fracture_cases_cut");
     R->outcome(sub, fmt("in=%zu mp=%llu pieces=%zu", sh.pts.size(), (unsigned long long)mp, pieces.size()));
@@ -690,8 +888,15 @@ static void decode_with_independent_codec(const std::string& /*path*/) {
 }
 
 // placement of the copies inside a writer cell (lattice units): repetition pitch along x, translated copy along y
-static IP wr_rep(const Shape& sh) { int64_t x0, y0, x1, y1; lattice_bbox(sh.pts, x0, y0, x1, y1); return {std::max<int64_t>(64, (x1 - x0) + 8), 0}; }
-static IP wr_shift(const Shape& sh) { int64_t x0, y0, x1, y1; lattice_bbox(sh.pts, x0, y0, x1, y1); return {0, std::max<int64_t>(64, (y1 - y0) + 8)}; }
+// (in lattice units; for members given in 1/sub steps the box is rounded up to whole lattice units)
+static IP wr_rep(const Shape& sh) { int64_t x0, y0, x1, y1; lattice_bbox(sh.pts, x0, y0, x1, y1); return {std::max<int64_t>(64, cdiv(x1 - x0, sh.sub) + 8), 0}; }
+static IP wr_shift(const Shape& sh) { int64_t x0, y0, x1, y1; lattice_bbox(sh.pts, x0, y0, x1, y1); return {0, std::max<int64_t>(64, cdiv(y1 - y0, sh.sub) + 8)}; }
+// (pts + off*sub) * U / sub rounded to the nearest integer (file-grid coordinates of an untouched original)
+static IPoly lift_round(const IPoly& p, int64_t U, IP off, int sub) {
+    IPoly q(p.size());
+    for (size_t i = 0; i < p.size(); i++) q[i] = {fdiv(2 * (p[i].x + off.x * sub) * U + sub, 2 * sub), fdiv(2 * (p[i].y + off.y * sub) * U + sub, 2 * sub)};
+    return q;
+}
 
 // one library with a cell per shape; each cell holds the polygon twice (layer 3 with a 2x1 repetition,
 // layer 4 translated, no repetition) so that the writer's work array is reused inside a cell.  Every
@@ -715,13 +920,16 @@ static void writer_block(const std::vector<Shape>& shapes, size_t first, size_t 
             c->name = copy_string(fmt("S%zu", s).c_str(), NULL);
             Polygon* a = (Polygon*)allocate_clear(sizeof(Polygon));
             a->tag = make_tag(3, 7);
-            set_points(*a, shapes[s].pts, {0, 0}, wc.scale);
+            // user units per pts unit; thin-slit members: lattice unit = one file-grid step (= scale/U user units), pts in 1/sub steps
+            const int sb = shapes[s].sub;
+            const double cs = sb > 1 ? wc.scale / (double)wc.U / sb : wc.scale;
+            set_points(*a, shapes[s].pts, {0, 0}, cs);
             a->repetition.type = RepetitionType::Rectangular;
-            a->repetition.columns = 2; a->repetition.rows = 1; a->repetition.spacing = Vec2{wc.scale * (double)wr_rep(shapes[s]).x, wc.scale * (double)wr_rep(shapes[s]).y};
+            a->repetition.columns = 2; a->repetition.rows = 1; a->repetition.spacing = Vec2{cs * sb * (double)wr_rep(shapes[s]).x, cs * sb * (double)wr_rep(shapes[s]).y};
             set_two_properties(a->properties);
             Polygon* b = (Polygon*)allocate_clear(sizeof(Polygon));
             b->tag = make_tag(4, 7);
-            set_points(*b, shapes[s].pts, wr_shift(shapes[s]), wc.scale);
+            set_points(*b, shapes[s].pts, {wr_shift(shapes[s]).x * sb, wr_shift(shapes[s]).y * sb}, cs);
             set_two_properties(b->properties);
             c->polygon_array.append(a);
             c->polygon_array.append(b);
@@ -759,8 +967,8 @@ static void writer_block(const std::vector<Shape>& shapes, size_t first, size_t 
                              "sub=writer pts=" + shape_tok(shapes[first]) + fmt(" mp=%llu cfg=%d wr=%d rfn=%d", (unsigned long long)mp, ci, wk, shapes[first].rfn));
             for (size_t s = first; s < last; s++) {
                 const Shape& sh = shapes[s];
-                const int64_t S = 21 * sh.rfn;
-                std::string replay = "sub=writer pts=" + shape_tok(sh) + fmt(" mp=%llu cfg=%d wr=%d rfn=%d", (unsigned long long)mp, ci, wk, sh.rfn);
+                const int64_t S = 21 * sh.rfn, U = sh.sub > 1 ? 1 : wc.U, SUB = sh.sub;  // U shadows the configuration's: oracle grid points per lattice unit of this member
+                std::string replay = "sub=writer pts=" + shape_tok(sh) + fmt(" mp=%llu cfg=%d wr=%d rfn=%d den=%d stride=%d", (unsigned long long)mp, ci, wk, sh.rfn, sh.sub, sh.stride);
                 JFields tags = {{"kind", jstr(sh.kind.substr(0, sh.kind.find('(')))}, {"n", jint((int64_t)sh.pts.size())}, {"max_points", juint(mp)}, {"config", jstr(wc.name)}, {"writer", jstr(wname)}};
                 std::vector<IPoly> shown;
                 auto case_json = [&]() {
@@ -805,7 +1013,7 @@ static void writer_block(const std::vector<Shape>& shapes, size_t first, size_t 
                     else {
                         std::vector<IPoly> rd;
                         std::string e2;
-                        if (!pieces_to_grid(bc->polygon_array, (double)U / wc.scale, rd, e2)) viol("reread_off_grid", e2);
+                        if (!pieces_to_grid(bc->polygon_array, (double)wc.U / wc.scale, rd, e2)) viol("reread_off_grid", e2);
                         else
                             for (size_t i = 0; i < rd.size(); i++) {
                                 Polygon* lp = bc->polygon_array[i];
@@ -826,13 +1034,13 @@ static void writer_block(const std::vector<Shape>& shapes, size_t first, size_t 
                     if (mp < 5) {
                         // a limit below five leaves the polygon alone: exactly the original vertex lists
                         bool same = pcs.size() == offs.size();
-                        for (size_t k = 0; same && k < offs.size(); k++) same = pcs[k] == lift(sh.pts, U, offs[k]);
+                        for (size_t k = 0; same && k < offs.size(); k++) same = pcs[k] == lift_round(sh.pts, U, offs[k], sh.sub);
                         if (!same) viol("limit_below_five_changed_polygon", fmt("%s: records differ from the original vertex list", L));
                         continue;
                     }
                     std::vector<Samp>& samples = scache[(s - first) * 2 + layer];
                     int64_t& guarded = sguard[(s - first) * 2 + layer];
-                    if (guarded < 0) { guarded = 0; make_samples(sh.pts, offs, U, sh.rfn, samples, &guarded, sh.stride); }
+                    if (guarded < 0) { guarded = 0; make_samples(sh.pts, offs, U, sh.rfn, samples, &guarded, sh.stride, sh.sub); }
                     std::vector<IPoly> fine;
                     for (auto& p : pcs) fine.push_back(lift(p, S));
                     PartVerdict v = check_partition(samples, fine, U, sh.rfn, true);
@@ -843,18 +1051,24 @@ static void writer_block(const std::vector<Shape>& shapes, size_t first, size_t 
                     else if (v.overlap) viol("pieces_overlap", std::string(L) + ": " + v.first);
                     i128 a_orig = abs128(eg::area2(sh.pts)) * U * U * (int64_t)offs.size(), a_sum = 0;
                     for (auto& p : pcs) a_sum += abs128(eg::area2(p));
+                    a_sum *= SUB * SUB;
                     int64_t x0, y0, x1, y1;
                     lattice_bbox(sh.pts, x0, y0, x1, y1);
                     int64_t newv = 0;
                     {
                         std::set<IP> orig;
-                        for (auto& o : offs) for (auto& q : sh.pts) orig.insert({(q.x + o.x) * U, (q.y + o.y) * U});
+                        for (auto& o : offs) for (auto& q : lift_round(sh.pts, U, o, sh.sub)) orig.insert(q);
                         for (auto& p : pcs) for (auto& q : p) if (!orig.count(q)) newv++;
                     }
-                    i128 slack2 = (i128)2 * (newv + (pcs.size() > offs.size() ? (int64_t)pcs.size() : 0)) * ((x1 - x0) + (y1 - y0)) * U;
+                    // an untouched member given in 1/sub steps is rounded to the file grid by the writer itself: allow for its off-grid vertices
+                    int64_t offgrid = 0;
+                    if (SUB > 1) for (auto& q : sh.pts) if (q.x % SUB || q.y % SUB) offgrid += (int64_t)offs.size();
+                    i128 slack2 = (i128)2 * (newv + offgrid + (pcs.size() > offs.size() ? (int64_t)pcs.size() : 0)) * ((x1 - x0) + (y1 - y0)) * U * SUB;
+                    const double an = 2.0 * U * U * SUB * SUB;
                     if (abs128(a_sum - a_orig) > slack2)
-                        viol("area_changed", fmt("%s: sum of record areas %.9g != %.9g (slack %.3g)", L, (double)a_sum / (2.0 * U * U), (double)a_orig / (2.0 * U * U), (double)slack2 / (2.0 * U * U)));
+                        viol("area_changed", fmt("%s: sum of record areas %.9g != %.9g (slack %.3g)", L, (double)a_sum / an, (double)a_orig / an, (double)slack2 / an));
                     if (layer == 0) {
+                        if (pcs.size() > 2 && keeps_hole(sh, U, {0, 0}, pcs)) R->count("writer_cases_piece_keeps_hole_whole");
                         if (pcs.size() > 2 * 2) { R->count("nontrivial"); R->count("nontrivial_writer"); }
                         if (pcs.size() > 2) R->count("writer_cases_cut");
                         R->outcome(sub, fmt("in=%zu mp=%llu records=%zu", sh.pts.size(), (unsigned long long)mp, pcs.size()));
@@ -901,23 +1115,24 @@ static const int64_t SL_U = 1000;
 // cuts2 = positions in half lattice units (sorted)
 static void slice_case(const SliceCtx& cx, const std::vector<int>& cuts2, bool x_axis, bool verbose) {
     const Shape& sh = *cx.sh;
-    const int64_t U = SL_U, S = 21 * sh.rfn, G = 3 * S;
+    // thin-slit members (sh.sub > 1): lattice unit = one 1/scaling step, pts in 1/sub steps, only integer cut positions
+    const int64_t U = sh.sub > 1 ? 1 : SL_U, S = 21 * sh.rfn, G = 3 * S, SUB = sh.sub;
     const std::string sub = "slice";
     std::string cs;
     for (size_t i = 0; i < cuts2.size(); i++) cs += (i ? ";" : "") + std::to_string(cuts2[i]);
-    std::string replay = "sub=slice pts=" + shape_tok(sh) + fmt(" cuts2=%s axis=%c rfn=%d", cs.empty() ? "-" : cs.c_str(), x_axis ? 'x' : 'y', sh.rfn);
+    std::string replay = "sub=slice pts=" + shape_tok(sh) + fmt(" cuts2=%s axis=%c rfn=%d den=%d stride=%d", cs.empty() ? "-" : cs.c_str(), x_axis ? 'x' : 'y', sh.rfn, sh.sub, sh.stride);
     Polygon poly = {};
-    set_points(poly, sh.pts);
+    set_points(poly, sh.pts, {0, 0}, sh.sub > 1 ? 1.0 / ((double)SL_U * sh.sub) : 1.0);
     Array<double> positions = {};
-    for (int c : cuts2) positions.append(0.5 * c);
+    for (int c : cuts2) positions.append(sh.sub > 1 ? 0.5 * c / (double)SL_U : 0.5 * c);
     size_t nint = cuts2.size() + 1;
     Array<Polygon*>* result = (Array<Polygon*>*)allocate_clear(nint * sizeof(Array<Polygon*>));
-    ErrorCode ec = slice(poly, positions, x_axis, (double)U, result);
+    ErrorCode ec = slice(poly, positions, x_axis, (double)SL_U, result);
     std::vector<std::vector<IPoly>> pieces(nint), fine(nint);
     std::string err;
     bool okgrid = true;
     for (size_t i = 0; i < nint; i++) {
-        if (!pieces_to_grid(result[i], U, pieces[i], err)) okgrid = false;
+        if (!pieces_to_grid(result[i], (double)SL_U, pieces[i], err)) okgrid = false;
         for (auto& p : pieces[i]) fine[i].push_back(lift(p, S));
     }
     JFields tags = {{"kind", jstr(sh.kind.substr(0, sh.kind.find('(')))}, {"n", jint((int64_t)sh.pts.size())}, {"cuts", jint((int64_t)cuts2.size())}, {"axis", jstr(x_axis ? "x" : "y")}};
@@ -973,12 +1188,13 @@ static void slice_case(const SliceCtx& cx, const std::vector<int>& cuts2, bool x
     lattice_bbox(sh.pts, x0, y0, x1, y1);
     for (size_t i = 0; i < nint; i++) {
         bool has_lo = i > 0, has_hi = i + 1 < nint;
-        long double lo = has_lo ? 0.5L * cuts2[i - 1] * U : 0, hi = has_hi ? 0.5L * cuts2[i] * U : 0;
-        long double want = (has_lo && has_hi && lo >= hi) ? 0 : clipped_area2(cx.grid, x_axis, has_lo, lo, has_hi, hi);
+        // cx.grid is in 1/SUB grid units: cut positions and areas are scaled accordingly
+        long double lo = has_lo ? 0.5L * cuts2[i - 1] * U * SUB : 0, hi = has_hi ? 0.5L * cuts2[i] * U * SUB : 0;
+        long double want = ((has_lo && has_hi && lo >= hi) ? 0 : clipped_area2(cx.grid, x_axis, has_lo, lo, has_hi, hi)) / (long double)(SUB * SUB);
         i128 got = 0;
         size_t nv = 0;
         for (auto& p : pieces[i]) { got += abs128(eg::area2(p)); nv += p.size(); }
-        long double slack2 = 2.0L * (nv + 4) * ((x1 - x0) + (y1 - y0)) * U;
+        long double slack2 = 2.0L * (nv + 4 + (SUB > 1 ? sh.pts.size() : 0)) * ((x1 - x0) + (y1 - y0)) / (long double)SUB * U;
         if (fabsl((long double)got - want) > slack2) {
             viol("area_differs", fmt("interval %zu: result area %.9g, polygon area between the cuts %.9g (slack %.3g)", i, (double)got / (2.0 * U * U), (double)(want / (2.0L * U * U)), (double)(slack2 / (2.0L * U * U))));
             break;
@@ -987,13 +1203,14 @@ static void slice_case(const SliceCtx& cx, const std::vector<int>& cuts2, bool x
     // non-trivial: a cut strictly inside the bounding box that passes through a vertex
     {
         bool inside = false, through = false;
-        int64_t lo2 = 2 * (x_axis ? x0 : y0), hi2 = 2 * (x_axis ? x1 : y1);
+        int64_t lo2 = 2 * (x_axis ? x0 : y0), hi2 = 2 * (x_axis ? x1 : y1);  // in 1/SUB half-units
         for (int c : cuts2)
-            if (c > lo2 && c < hi2) {
+            if (c * SUB > lo2 && c * SUB < hi2) {
                 inside = true;
-                for (auto& q : sh.pts) if (2 * (x_axis ? q.x : q.y) == c) through = true;
+                for (auto& q : sh.pts) if (2 * (x_axis ? q.x : q.y) == c * SUB) through = true;
             }
         if (through) { R->count("nontrivial"); R->count("nontrivial_slice"); }
+        for (auto& g : pieces) if (keeps_hole(sh, U, {0, 0}, g)) { R->count("slice_cases_interval_keeps_hole_whole"); break; }
         if (inside) R->count("slice_cases_cut_inside_bbox");
         size_t tot = 0;
         for (auto& g : pieces) tot += g.size();
@@ -1019,6 +1236,11 @@ static std::vector<int> positions2_for(const Shape& sh, int g, bool x_axis) {
     if (g > 0) { v.push_back(-2); for (int c = 0; c <= 2 * g; c++) v.push_back(c); return v; }
     int64_t x0, y0, x1, y1;
     lattice_bbox(sh.pts, x0, y0, x1, y1);
+    if (sh.sub > 1) {  // integer positions only (in grid steps), a few well inside so that some interval keeps the cavity whole
+        int lo = (int)(2 * fdiv(x_axis ? x0 : y0, sh.sub)), hi = (int)(2 * cdiv(x_axis ? x1 : y1, sh.sub)), w = hi - lo;
+        std::set<int> s = {lo - 2, lo, lo + 2, lo + 2 * (w / 8), lo + 2 * (w * 3 / 10), hi - 2 * (w / 8), hi, hi + 2};
+        return std::vector<int>(s.begin(), s.end());
+    }
     int lo = (int)(2 * (x_axis ? x0 : y0)), hi = (int)(2 * (x_axis ? x1 : y1));
     std::set<int> s = {lo - 2, lo, lo + 1, lo + 2, (lo + hi) / 2, hi - 2, hi - 1, hi, hi + 2};
     return std::vector<int>(s.begin(), s.end());
@@ -1028,8 +1250,8 @@ static int64_t slice_block(const std::vector<Shape>& shapes, size_t first, size_
     for (size_t s = first; s < last && s < shapes.size(); s++) {
         SliceCtx cx;
         cx.sh = &shapes[s];
-        make_samples(shapes[s].pts, {{0, 0}}, SL_U, shapes[s].rfn, cx.samples, &cx.guarded, shapes[s].stride);
-        cx.grid = lift(shapes[s].pts, SL_U);
+        make_samples(shapes[s].pts, {{0, 0}}, shapes[s].sub > 1 ? 1 : SL_U, shapes[s].rfn, cx.samples, &cx.guarded, shapes[s].stride, shapes[s].sub);
+        cx.grid = lift(shapes[s].pts, shapes[s].sub > 1 ? 1 : SL_U);
         for (int ax = 0; ax < 2; ax++) {
             std::vector<std::vector<int>> lists;
             cut_lists(positions2_for(shapes[s], g, ax == 0), lists);
@@ -1070,7 +1292,7 @@ static void run_search(What what, const std::string& sub, const std::string& bou
         for (size_t i = 0; i < limits.size(); i++) s += (i ? "," : "") + std::to_string(limits[i]);
         s += " shapes=";
         for (size_t k = (size_t)c * chunk; k < (size_t)c * chunk + chunk && k < shapes.size(); k++) s += (k > (size_t)c * chunk ? "|" : "") + shape_tok(shapes[k]);
-        s += fmt(" rfn=%d", shapes[(size_t)c * chunk].rfn);
+        s += fmt(" rfn=%d den=%d stride=%d", shapes[(size_t)c * chunk].rfn, shapes[(size_t)c * chunk].sub, shapes[(size_t)c * chunk].stride);
         return s;
     };
     bool ok = parallel_for(*R, nchunks, body, describe, replay_of, PFOptions{timeout_s, sub, true});
@@ -1091,8 +1313,8 @@ static int replay_main() {
         Shape sh = shape_from_tok(R->rarg("pts"), rfn);
         SliceCtx cx;
         cx.sh = &sh;
-        make_samples(sh.pts, {{0, 0}}, SL_U, sh.rfn, cx.samples, &cx.guarded, sh.stride);
-        cx.grid = lift(sh.pts, SL_U);
+        make_samples(sh.pts, {{0, 0}}, sh.sub > 1 ? 1 : SL_U, sh.rfn, cx.samples, &cx.guarded, sh.stride, sh.sub);
+        cx.grid = lift(sh.pts, sh.sub > 1 ? 1 : SL_U);
         std::vector<int> cuts;
         std::string c = R->rarg("cuts2");
         if (c != "-") { std::replace(c.begin(), c.end(), ';', ','); cuts = parse_hist(c); }
@@ -1140,6 +1362,26 @@ int main(int argc, char** argv) {
     run_search(FRACTURE, "fracture", "families (small parameters) x 4 orientations x max_points {5,6,7,8,12,20} x 3 precisions, + limits {0..4}", fam, 1, LIMF, 0, {}, 10);
     run_search(WRITER, "writer", "g=3 n=5..7 (+dup) x write_gds max_points {5,6,7,8,0,4} x 4 unit/precision/scale configurations (0,3,4,5) x 2 writers", lat36, 64, LIM, 3, QCFG, 10);
     run_search(WRITER, "writer", "families (small parameters) x write_gds max_points {5,6,7,8,12,20,0,4} x 4 configurations (0,3,4,5) x 2 writers", fam, 4, LIMF, 0, QCFG, 10);
+    {
+        // key-holed polygons (quick: trapezoid and pentagon outers, t=5; thorough: 4 outers x t in {3,5,7})
+        std::vector<Shape> kh, khs;
+        build_keyholes(kh, T, {0, 1, 2, 3});
+        build_keyholes(khs, T, T ? std::vector<int>{0, 2} : std::vector<int>{0});
+        std::string d = T ? "key-holed polygons: 4 outer shapes x 3 holes x 4 slit sides x notches t in {3,5,7}" : "key-holed polygons: 2 outer shapes x 3 holes x 4 slit sides, t=5";
+        run_search(FRACTURE, "fracture", d + " x 4 orientations x max_points {5,6,7,8,12,20} x 3 precisions, + limits {0..4}", kh, 1, LIMF, 0, {}, 10);
+        run_search(WRITER, "writer", d + " x 4 orientations x write_gds max_points {5,6,7,8,12,20,0,4} x " + (T ? "7" : "4") + " configurations x 2 writers", kh, 4, LIMF, 0, T ? ALLCFG : QCFG, 10);
+        run_search(SLICE, "slice", d + (T ? " x 2 orientations" : "") + " x sorted lists of <=3 positions around min/mid/max x 2 axes", khs, 1, {}, 0, {}, 15);
+    }
+    {
+        // thin-slit cavities (coordinates relative to the precision grid, see thin_slit)
+        std::vector<Shape> ts, tss;
+        build_thin_slits(ts, T ? std::vector<int>{0, 1, 2, 3} : std::vector<int>{0, 2});
+        build_thin_slits(tss, T ? std::vector<int>{0, 2} : std::vector<int>{0});
+        std::string d = "thin-slit cavities (slit 1/3 or 2/3 of a grid step): 4 slits x 2 left sides";
+        run_search(FRACTURE, "fracture", d + (T ? " x 4" : " x 2") + " orientations x max_points {5,6,7,8,12,20} x 3 precisions, + limits {0..4}", ts, 1, LIMF, 0, {}, 10);
+        run_search(WRITER, "writer", d + (T ? " x 4" : " x 2") + " orientations x write_gds max_points {5,6,7,8,12,20,0,4} x " + (T ? "7" : "4") + " configurations x 2 writers", ts, 2, LIMF, 0, T ? ALLCFG : QCFG, 10);
+        run_search(SLICE, "slice", d + (T ? " x 2 orientations" : "") + " x sorted lists of <=3 integer positions x 2 axes", tss, 1, {}, 0, {}, 15);
+    }
     {
         // sort-fallback family (see namespace aq).  variant = transposed | mirrored<<1 | arrangement<<2
         std::vector<Shape> aqs, aqw;
